@@ -518,6 +518,7 @@ def correspond(ctx, name, cases, hcmd, dcmd, max_report=6, keep_prefix=0, run_ca
     if big.ok:
         ctx.log(f"{name}: {len(cases)} cases / {len(all_ops)} ops agree ({time.time()-t:.1f}s) {stats}")
         return 0
+    ctx.log(f"{name}: batch run disagrees after {time.time()-t:.1f}s; running the {len(cases)} cases one by one")
     with ThreadPoolExecutor(max_workers=6) as ex:
         results = list(ex.map(lambda c: run_case(ctx, hcmd, dcmd, c), cases))
     failing = [(c, r) for c, r in zip(cases, results) if not r.ok]
